@@ -153,6 +153,18 @@ func main() {
 
 		chainDepth := r.Scale(4, 5)
 		batched(r, "xerrors-small", nChains(chainDepth), 64, workers, func(x *cx, t int) { xerrorsSmall(x, t, chainDepth) })
+		r.Cases("xerrors-trees", r.Scale(200, 4000), workers, func(c *vkit.Case) {
+			x := newCx(c, true)
+			if c.Index == 0 {
+				for _, t := range fixedTrees(c.Rand) {
+					treeCase(x, c.Rand, t)
+				}
+			}
+			for i := 0; i < 10 && !x.failed; i++ {
+				treeCase(x, c.Rand, genTree(c.Rand, 3))
+			}
+			x.flush()
+		})
 		r.Cases("xerrors-fixed", 1, 1, func(c *vkit.Case) {
 			x := newCx(c, true)
 			xerrorsFixed(x)
@@ -287,6 +299,9 @@ func main() {
 		}
 		for _, fn := range []string{"xslices.Clone", "xslices.Filter", "xslices.Map", "xslices.Unique", "xslices.Compact", "xslices.CompactFunc", "xslices.Join", "xsort.MergeSlices", "xmaps.Union", "xmaps.Intersection", "xmaps.Difference"} {
 			r.Floor("result-independence checks of "+fn, r.Table("result independence", fn), 1)
+		}
+		for _, k := range []string{"trees with at least one stack", "WithStack of an error with a stack somewhere in its tree", "WithStack inside a branch of a multi-error", "stacked target", "stacked target with a non-comparable inner error"} {
+			r.Floor("error trees: "+k, r.Table("error trees", k), 1)
 		}
 		r.Floor("Runs inputs with a leading run of length one", r.Table("runs", "leading run of length one"), 1)
 		r.Floor("Partition inputs with both sides non-empty", r.Table("partition", "both sides non-empty"), 1)
